@@ -1,6 +1,7 @@
 import SSV.Proofs.PacketRelay
 import SSV.Proofs.PacketSSDown
 import SSV.Proofs.PacketLimit
+import SSV.Proofs.PacketHistory
 /-
 C05 — UDP packets survive pack/unpack unchanged and never exceed the path MTU.
 Property theorems only; helper lemmas are in SSV/Proofs/Packet*.lean. The model (SSV/Model/Packet.lean,
@@ -214,6 +215,52 @@ theorem direct_target_only_domain_panics (name : Bytes) (port : Nat) (b : Bytes)
 /-- the abstract cryptography hypothesis `Crypto.Laws` is satisfiable (the driver's instance) -/
 theorem crypto_laws_satisfiable : ∃ c : Crypto, c.Laws := ⟨toyCrypto, toyCrypto_laws⟩
 
+/-! ## histories: one packer/unpacker pair, one reused buffer, state carried from packet to packet -/
+
+/-- roundtrip_history_none / roundtrip_history_socks5: for every sequence of (address, payload, start offset)
+through ONE client packer and ONE server unpacker (with its `DomainCache`, in any state) over ONE reused buffer
+(in any initial state, each packet written over whatever the earlier ones left), every packet comes out as
+(norm address, payload) or is refused — independently of all earlier packets (same-length domains, IP targets in
+between, refused packets in between). `PlainDelivered` pairs the i-th output with the i-th input. -/
+theorem roundtrip_history_plain (hdr3 : Bool) (limit : Int) (steps : List PlainStep) (c : DomainCache) (b : Bytes)
+    (h : ∀ x ∈ steps, x.addr.wf ∧ x.ps + x.payload.length ≤ b.length) :
+    PlainDelivered steps (plainHist hdr3 limit (c, b) steps) :=
+  plainHist_spec hdr3 limit steps c b h
+
+/-- roundtrip_history_ss2022 (any number of identity headers; per packet its own padding draw, timestamp, packet id) -/
+theorem roundtrip_history_ss2022 (p : SSPair) (hp : p.good) (steps : List SSStep) (c : DomainCache) (b : Bytes)
+    (h : ∀ x ∈ steps, x.good b.length) :
+    SSDelivered steps (ssHist p (c, b) steps) :=
+  ssHist_spec p hp steps c b h
+
+/-- roundtrip_history_direct: for every sequence of targets through ONE direct client packer, with a resolver
+that may answer or fail differently at every step (`res`), starting from the empty cache: every packet that is
+packed leaves the payload window alone, respects the limit of its destination, and is addressed to its IP target,
+or — for a domain target — to an address the resolver has given FOR THAT NAME at this or an earlier step
+(never to another name's address, never to the zero address); `updateDomainIPCacheProg` is the source's. -/
+theorem roundtrip_history_direct (mtu : Int) (steps : List DirectStep) (h : ∀ x ∈ steps, x.addr.wf) :
+    DirectSound mtu [] steps (directHist updateDomainIPCacheProg mtu ⟨[], none⟩ steps) :=
+  directHist_sound mtu steps [] ⟨[], none⟩ (Or.inl rfl) h
+
+/-- why `cachedDomain` must be assigned only after a successful resolution: with the assignment moved before
+`ResolveIP`, the history  a.test → 1.1.1.1 ; b.test → resolution fails ; b.test  packs the third packet without
+error, addressed to a.test's address. -/
+theorem resolver_cache_assigned_before_resolve_is_unsound :
+    let prog : List ResOp := [.returnIfCached, .setDomain, .resolve, .returnOnErr, .setIP]
+    let a : Bytes := [0x61]
+    let b : Bytes := [0x62]
+    (directHist prog 1500 ⟨[], none⟩
+        [⟨.dom a 53, 0, 10, some (.v4 [1, 1, 1, 1])⟩, ⟨.dom b 53, 0, 10, none⟩, ⟨.dom b 53, 0, 10, none⟩]).map
+      (fun o => match o with | .ok r => some r.dest | _ => none)
+      = [some (some (.v4 [1, 1, 1, 1])), none, some (some (.v4 [1, 1, 1, 1]))] := by decide
+
+/-- …whereas the source's order refuses the third packet as well -/
+theorem resolver_cache_head_refuses :
+    (directHist updateDomainIPCacheProg 1500 ⟨[], none⟩
+        [⟨.dom [0x61] 53, 0, 10, some (.v4 [1, 1, 1, 1])⟩, ⟨.dom [0x62] 53, 0, 10, none⟩, ⟨.dom [0x62] 53, 0, 10, none⟩]).map
+      (fun o => match o with | .ok r => some r.dest | _ => none)
+      = [some (some (.v4 [1, 1, 1, 1])), none, none] := by decide
+
 /-! ## the limit handed to the packer is the one of the current client address -/
 
 /-- relay_limit_current: in both downlink loops of the session relay (`relayNatConnToServerConnGeneric`,
@@ -253,6 +300,9 @@ theorem relay_front_arith (s c : Proto) (a : Addr) (ha : a.wf) (hdr : Int) (hhdr
 example : (Addr.dom [0x61] 53).wf := by decide
 example : (AddrPort.mk (.v6 (v4in6Prefix ++ [1, 2, 3, 4])) 53).wf := by decide
 example : tsOk [0, 0, 0, 0, 0x66, 0xf0, 0xf0, 0xf0] 1727066352 = true := by decide
+example : (SSPair.mk toyCrypto [1] [2] [] 1452 .padAll [0, 0, 0, 0, 0, 0, 0, 1]).good := ⟨toyCrypto_laws, rfl, by simp⟩
+example : (SSStep.mk (.dom [0x61] 53) 40 [7, 7] 3 [0, 0, 0, 0, 0x66, 0xf0, 0xf0, 0xf0] [0, 0, 0, 0, 0, 0, 0, 2] 1727066352).good 100 :=
+  ⟨by decide, by decide, rfl, rfl, by decide⟩
 example : (ServerU.direct (.dom [0x61] 53)).ok := ⟨by decide, by simp⟩
 example : (ServerP.direct (.ip ⟨.v4 [1, 2, 3, 4], 53⟩) true).ok := fun _ => ⟨_, rfl⟩
 example : (ClientU.ss toyCrypto [1] [2] [0, 0, 0, 0, 0, 0, 0, 0] 0).ok := toyCrypto_laws
@@ -287,6 +337,11 @@ end SSV.C05
 #print axioms SSV.C05.relay_safe_down
 #print axioms SSV.C05.direct_target_only_domain_panics
 #print axioms SSV.C05.crypto_laws_satisfiable
+#print axioms SSV.C05.roundtrip_history_plain
+#print axioms SSV.C05.roundtrip_history_ss2022
+#print axioms SSV.C05.roundtrip_history_direct
+#print axioms SSV.C05.resolver_cache_assigned_before_resolve_is_unsound
+#print axioms SSV.C05.resolver_cache_head_refuses
 #print axioms SSV.C05.relay_limit_current
 #print axioms SSV.C05.relay_limit_is4_guard_is_stale
 #print axioms SSV.C05.relay_front_arith
